@@ -42,6 +42,8 @@ pub struct Model {
     pub evals: BTreeMap<&'static str, u64>,
     pub panics: BTreeMap<String, u64>,
     pub known_users: BTreeSet<String>,
+    /// LST minted for native-chain recipients (sum of minted amounts per recipient)
+    pub lst_owed_native: BTreeMap<String, u128>,
     /// set once the totals became unobservable; the flow bookkeeping is then incomplete for good
     pub unknown: bool,
 }
@@ -477,6 +479,7 @@ impl Model {
                                     v.push(Viol { prop: "C03", what: format!("LST balance of {a} changed by {d} in a stake for native recipient (minted {total_minted})") });
                                 }
                             }
+                            *self.lst_owed_native.entry(recipient.clone()).or_insert(0) += total_minted;
                             self.count(&format!("stake_native:{}", regime(pre.n, pre.l)));
                         } else {
                             if !lst_sends.is_empty() {
@@ -515,6 +518,31 @@ impl Model {
             }
         }
 
+        if self.on("C03") {
+            // every native recipient ends up with exactly what was minted for it: delivered vouchers
+            // + transfers in flight + refunded transfers awaiting re-send
+            let nd = format!("voucher/{t}");
+            for (r, owed) in &self.lst_owed_native {
+                let mut have = sc.w.nbal(r, &nd);
+                for p in sc.w.packets.values() {
+                    if &p.sender == q && &p.denom == t && &p.receiver == r {
+                        match p.status {
+                            PStatus::InFlight => have += p.amount,
+                            PStatus::ErrAcked | PStatus::TimedOut => {
+                                if !self.consumed.contains(&(p.channel.clone(), p.seq)) {
+                                    have += p.amount
+                                }
+                            }
+                            PStatus::Acked => {}
+                        }
+                    }
+                }
+                if have != *owed {
+                    v.push(Viol { prop: "C03", what: format!("native recipient {r} was minted {owed} LST in total but holds / is owed {have} (delivered + in flight + refunded awaiting re-send) after {kind}") });
+                    break;
+                }
+            }
+        }
         // ---------------- C05 (+ C17 request index)
         {
             if res.ok && is_unstake {
